@@ -49,9 +49,15 @@ extern void (*vorbis_verif_spectrum)(int stage,int ch,const float *v,long n);
 /* spectral vectors of the packet being decoded: [stage][channel][bin], kept only for small blocks and few channels */
 #define SPEC_CH 4
 #define SPEC_N 256
-static float g_spec[2][SPEC_CH][SPEC_N]; static long g_specn[2][SPEC_CH]; static int g_spec_seen;
-static void spec_probe(int stage,int ch,const float *v,long n){ if(stage<0||stage>1||ch<0||ch>=SPEC_CH||n>SPEC_N) return; memcpy(g_spec[stage][ch],v,n*sizeof(float)); g_specn[stage][ch]=n; g_spec_seen=1; }
+static float g_spec[3][SPEC_CH][SPEC_N]; static long g_specn[3][SPEC_CH]; static int g_spec_seen;
+static void spec_probe(int stage,int ch,const float *v,long n){ if(stage<0||stage>2||ch<0||ch>=SPEC_CH||n>SPEC_N) return; memcpy(g_spec[stage][ch],v,n*sizeof(float)); g_specn[stage][ch]=n; g_spec_seen=1; }
 static void ev_spec(const char *key,int stage,int nch){ char t[SPEC_N*14+8]; ev_arr_begin(key); for(int c=0;c<nch&&c<SPEC_CH;c++){ size_t o=0; o+=sprintf(t+o,"["); for(long i=0;i<g_specn[stage][c];i++){ float f=g_spec[stage][c][i]; long q=(long)f; o+=sprintf(t+o,"%s%ld",i?",":"",((float)q==f&&q>-100000&&q<100000)?q:999999); } sprintf(t+o,"]"); ev_arr_raw(t); } ev_arr_end(); }
+/* a spectral vector as IEEE single-precision fields [sign, biased exponent, mantissa] per bin */
+static void ev_spec_bits(const char *key,int stage,int nch){ char *t=malloc(SPEC_N*40+8); ev_arr_begin(key); for(int c=0;c<nch&&c<SPEC_CH;c++){ size_t o=0; o+=sprintf(t+o,"["); for(long i=0;i<g_specn[stage][c];i++){ uint32_t u; memcpy(&u,&g_spec[stage][c][i],4); o+=sprintf(t+o,"%s[%u,%u,%u]",i?",":"",u>>31,(u>>23)&255,u&0x7fffff); } sprintf(t+o,"]"); ev_arr_raw(t); } ev_arr_end(); free(t); }
+/* expected: channels separated by '/', bins by ',', fields by '.'; a channel given as "x" is not compared (reported as [] in both lists) */
+static void ev_spec_bits_expected(const char *key,const char *list,char *skip){ char *t=malloc(SPEC_N*40+8); ev_arr_begin(key); const char *q=list; int c=0; while(*q){ size_t o=0; o+=sprintf(t+o,"["); int first=1;
+    if(*q=='x'){ if(c<SPEC_CH) skip[c]=1; q++; } else while(*q&&*q!='/'){ long a=strtol(q,(char**)&q,10); if(*q=='.')q++; long b=strtol(q,(char**)&q,10); if(*q=='.')q++; long m=strtol(q,(char**)&q,10); o+=sprintf(t+o,"%s[%ld,%ld,%ld]",first?"":",",a,b,m); first=0; if(*q==',')q++; }
+    sprintf(t+o,"]"); ev_arr_raw(t); if(*q=='/')q++; c++; } ev_arr_end(); free(t); }
 static void ev_spec_expected(const char *key,const char *list){ char t[SPEC_N*14+8]; ev_arr_begin(key); const char *q=list; while(*q){ size_t o=0; o+=sprintf(t+o,"["); int first=1; while(*q&&*q!='/'){ long v=strtol(q,(char**)&q,10); o+=sprintf(t+o,"%s%ld",first?"":",",v); first=0; if(*q==',')q++; } sprintf(t+o,"]"); ev_arr_raw(t); if(*q=='/')q++; } ev_arr_end(); }
 #endif
 static long g_packed_bits;
@@ -137,13 +143,13 @@ static void cmd(char **tok,int nt){
     if(rnd){ rng_t r; r.s=(uint64_t)atol(tok[3])*7919+1; nb=atol(tok[4]); if(nb<1)nb=1; b=malloc(nb+16); for(long i=0;i<nb;i++) b[i]=(unsigned char)rng_u32(&r); b[0]&=0xFE; memset(b+nb,0,16); W=0; gp=atoll(tok[5]); }
     else { W=atoi(tok[3]); gp=atoll(tok[4]); eos=atoi(tok[5]); nosil=(nt>6&&!strcmp(tok[6],"ns")); b=pack_fields(tok,6,nt,&nb); }
     ogg_packet op; memset(&op,0,sizeof op); op.packet=b; op.bytes=nb; op.packetno=3+k; op.granulepos=gp; op.e_o_s=eos;
-    const char *fx=find_opt(tok,nt,"fx="), *yx=find_opt(tok,nt,"yx="), *rx=find_opt(tok,nt,"rx="), *cx=find_opt(tok,nt,"cx=");
+    const char *fx=find_opt(tok,nt,"fx="), *yx=find_opt(tok,nt,"yx="), *rx=find_opt(tok,nt,"rx="), *cx=find_opt(tok,nt,"cx="), *px=find_opt(tok,nt,"px=");
     static int fitbuf[80], ybuf[8192]; int nfit=-1, ny=0;
 #ifdef XIPH_VORBIS_VERIF
     if(fx||yx){ for(int i=0;i<8192;i++) ybuf[i]=-1; vorbis_verif_fit=fitbuf; vorbis_verif_nfit=80; vorbis_verif_ybuf=ybuf; vorbis_verif_ylen=8192; }
 #endif
 #ifdef XIPH_VORBIS_VERIF
-    if(rx||cx){ g_spec_seen=0; memset(g_specn,0,sizeof g_specn); vorbis_verif_spectrum=spec_probe; }
+    if(rx||cx||px){ g_spec_seen=0; memset(g_specn,0,sizeof g_specn); vorbis_verif_spectrum=spec_probe; }
 #endif
     int rs=vorbis_synthesis(&x->vb,&op); long used=oggpack_bits(&x->vb.opb); int rW=x->vb.W; int rb=-9999; if(rs==0) rb=vorbis_synthesis_blockin(&x->vd,&x->vb); free(b);
 #ifdef XIPH_VORBIS_VERIF
@@ -153,7 +159,11 @@ static void cmd(char **tok,int nt){
     ev_i("rs",rs); ev_i("used",used); ev_i("rb",rb); ev_i("gpf",0); ev_i("syn",1); ev_i("xused",rnd?-1:g_packed_bits);
     if(fx&&nfit>=0){ ev_arr_begin("fit"); for(int i=0;i<nfit;i++) ev_arr_i(fitbuf[i]); ev_arr_end(); ev_arr_begin("xfit"); for(const char *q=fx;*q;){ ev_arr_i(strtol(q,(char**)&q,10)); if(*q==',')q++; } ev_arr_end(); }
 #ifdef XIPH_VORBIS_VERIF
-    if(rx||cx){ vorbis_verif_spectrum=0; if(g_spec_seen){ if(rx){ ev_spec("rv",0,x->vi.channels); ev_spec_expected("xrv",rx); } if(cx){ ev_spec("cv",1,x->vi.channels); ev_spec_expected("xcv",cx); } } }
+    if(rx||cx||px){ vorbis_verif_spectrum=0; if(g_spec_seen){ if(rx){ ev_spec("rv",0,x->vi.channels); ev_spec_expected("xrv",rx); } if(cx){ ev_spec("cv",1,x->vi.channels); ev_spec_expected("xcv",cx); }
+        if(px){ char skip[SPEC_CH]={0}; /* expected first: it says which channels are not compared */
+          { char *dup=strdup(px); int c=0; for(char *q=dup;*q;){ if(*q=='x'&&c<SPEC_CH) skip[c]=1; while(*q&&*q!='/')q++; if(*q=='/')q++; c++; } free(dup); }
+          for(int c=0;c<SPEC_CH;c++) if(skip[c]) g_specn[2][c]=0;
+          ev_spec_bits("pv",2,x->vi.channels); char sk2[SPEC_CH]={0}; ev_spec_bits_expected("xpv",px,sk2); } } }
 #endif
     if(yx&&ny>0){ ev_arr_begin("yc"); for(int i=0;i<ny;i++) ev_arr_i(ybuf[i]); ev_arr_end(); ev_arr_begin("xyc"); for(const char *q=yx;*q;){ ev_arr_i(strtol(q,(char**)&q,10)); if(*q==',')q++; } ev_arr_end(); }
     ev_dst(x); ev_end();
